@@ -68,7 +68,7 @@ pub fn sequence(input: Input<'_>) -> ParserResult<'_, ASN1Type> {
     .parse(input)
 }
 
-fn extension_group(input: Input<'_>) -> ParserResult<'_, SequenceComponent> {
+pub fn extension_group(input: Input<'_>) -> ParserResult<'_, SequenceComponent> {
     map(
         in_version_brackets(preceded(
             opt(pair(
